@@ -217,6 +217,25 @@ def run(ck):
               "a normal return is reached without any of the function's memory-range tests: pointers/lengths outside memory do not trap on that path", f.loc(und[0]) if und else f.loc())
     ck.floor("BOUNDS", "host functions with memory-range tests", nfn, 25)
 
+    # proportional work inside the state trie is charged through the resource counters the host hands in: copying a value out
+    # of persistent storage (get_mut) is preceded by `allocate`, every traversal step of an iterator / prefix deletion by
+    # `count_key_traverse_part`; the counts are those of the pinned tree (a deleted charge leaves no other trace)
+    TRIE_CHARGES = {"get_mut": (r"::allocate$", 2), "next": (r"count_key_traverse_part$", 3), "delete_prefix": (r"count_key_traverse_part$", 1)}
+    LLT = E + "::v1::trie::low_level::MutableTrie::"
+    for name, (pat, cnt) in sorted(TRIE_CHARGES.items()):
+        g = getfn(ck, "sc", E, LLT + name)
+        if not g:
+            continue
+        sites = g.calls(pat)
+        good = [bi for (bi, t) in sites if rules.enforcement(g, bi)["status"] in ("enforced", "propagated")]
+        ck.ob("ENF", g.path, "trie-work-charged", len(good) >= cnt,
+              "%d enforced charges (%s)" % (len(good), pat.strip("$:")) if len(good) >= cnt else
+              "%d enforced charges of the resource counter, %d on the pinned tree: some proportional work (value copy / key traversal) is no longer paid for" % (len(good), cnt), g.loc())
+        if name == "get_mut":
+            # the copy itself comes after the charge
+            clones = [bi for (bi, t) in g.calls(r"Clone::clone$|slice::<impl \[T\]>::to_vec$|::to_owned$") if "Vec<u8>" in (g.locals[t["dest"][0]] if t.get("dest") else "")]
+            okc = all(any(g.dominates(cb, bi) for cb in good) for bi in clones) and len(clones) >= 1
+            ck.ob("DOM", g.path, "value-copy-after-the-charge", okc, "every copy of a stored value is dominated by an enforced allocate()" if okc else "a stored value is copied before (or without) the allocation charge", g.loc(clones[0]) if clones else g.loc())
     # invalid handles never reach the tables (results follow the host interface: u32::MAX / error code for stale handles)
     from .c15 import stale_handle_rules
     stale_handle_rules(ck, c)
